@@ -104,10 +104,13 @@ package combinator
 //@   assigns  nothing
 
 //@ -- per-run state of a sequence (window = [GhostLo, GhostHi], arrays built by this run lie above GhostSeqMark)
-//@ pure func seqOK(s *sequence, ctx *parsley.Context) bool = s != nil && s.parserLookUp != nil && s.lenCheck != nil && s.resultHandler != nil && data.Inv(s.curtailingParsers) && (s.result != nil ==> parsley.NodeOK(s.result) && (parsley.ListSpare(s.result) > 0 ==> parsley.GhostSpare(parsley.ListArr(s.result))) && (parsley.ListArr(s.result) == 0 || parsley.ListArr(s.result) >= parsley.GhostSeqMark) && parsley.EndsWithin(s.result, parsley.GhostLo, parsley.GhostHi)) && (s.err != nil ==> parsley.GhostLo <= s.err.Pos() && s.err.Pos() <= parsley.GhostHi && s.err.Pos() <= parsley.GhostMaxFail) && (forall k int :: 0 <= k && k < len(s.nodes) ==> validSeqNode(s.nodes[k])) && (len(s.nodes) == 0 || array(s.nodes) >= parsley.GhostSeqMark) && offset(s.nodes) == 0
+//@ pure func seqOK(s *sequence, ctx *parsley.Context) bool = s != nil && s.parserLookUp != nil && s.lenCheck != nil && s.resultHandler != nil && data.Inv(s.curtailingParsers) && (s.result != nil ==> parsley.NodeOK(s.result) && (parsley.ListArr(s.result) != 0 ==> parsley.GhostSpare(parsley.ListArr(s.result)) && parsley.ListArr(s.result) >= parsley.GhostSeqMark && allocatedid(parsley.ListArr(s.result))) && parsley.EndsWithin(s.result, parsley.GhostLo, parsley.GhostHi)) && (s.err != nil ==> parsley.GhostLo <= s.err.Pos() && s.err.Pos() <= parsley.GhostHi && s.err.Pos() <= parsley.GhostMaxFail) && (forall k int :: 0 <= k && k < len(s.nodes) ==> validSeqNode(s.nodes[k])) && (cap(s.nodes) == 0 || (array(s.nodes) >= parsley.GhostSeqMark && parsley.GhostSpare(array(s.nodes)))) && offset(s.nodes) == 0 && 0 <= len(s.nodes) && len(s.nodes) <= cap(s.nodes) && (array(s.nodes) == 0 ==> cap(s.nodes) == 0) && allocatedid(array(s.nodes)) && (cap(s.nodes) == 0 || s.result == nil || parsley.ListArr(s.result) != array(s.nodes))
 //@ -- the first index without a parser is an acceptable length (otherwise a run could end with neither result nor error)
 //@ pure func seqShape(s *sequence) bool = forall d int :: d >= 0 && lookupOf(s.parserLookUp, d) == nil && (d == 0 || lookupOf(s.parserLookUp, d-1) != nil) ==> lenOf(s.lenCheck, d)
 //@ pure func seqGhost(ctx *parsley.Context) bool = (old(parsley.GhostCurtailed) ==> parsley.GhostCurtailed) && parsley.GhostMaxFail >= old(parsley.GhostMaxFail) && parsley.GhostCalls >= old(parsley.GhostCalls) && parsley.GhostFloorPos == old(parsley.GhostFloorPos) && same(parsley.GhostFloorLrc, old(parsley.GhostFloorLrc)) && parsley.GhostLo == old(parsley.GhostLo) && parsley.GhostHi == old(parsley.GhostHi) && parsley.GhostSeqMark == old(parsley.GhostSeqMark) && (forall a int :: a < parsley.GhostSeqMark ==> parsley.GhostSpare(a) == old(parsley.GhostSpare(a)))
+
+//@ -- everything except the run's own two arrays (the scratch slice of nodes and the result list) keeps its alternatives
+//@ pure func seqFrame(s *sequence) bool = forall x parsley.Node, k int :: parsley.ListArr(x) == 0 || (!freshid(parsley.ListArr(x)) && (old(cap(s.nodes)) == 0 || parsley.ListArr(x) != old(array(s.nodes))) && (old(s.result) == nil || parsley.ListArr(x) != old(parsley.ListArr(s.result)))) ==> same(parsley.Alt(x, k), old(parsley.Alt(x, k)))
 
 //@ func (s *sequence) parse(depth int, ctx *parsley.Context, lrc data.IntMap, pos parsley.Pos, merge bool) (done bool)
 //@   requires seqOK(s, ctx) && seqShape(s) && 0 <= depth && depth <= len(s.nodes) && (depth == 0 || lookupOf(s.parserLookUp, depth-1) != nil)
@@ -115,23 +118,38 @@ package combinator
 //@   requires [floor;C02] pos > parsley.GhostFloorPos || (pos == parsley.GhostFloorPos && forall k int :: data.MapOf(lrc)[k] >= data.MapOf(parsley.GhostFloorLrc)[k])
 //@   ensures  seqOK(s, ctx) && len(s.nodes) >= old(len(s.nodes)) && parsley.WfCtx(ctx) && parsley.WfCache(ctx) && seqGhost(ctx)
 //@   ensures  [fixed] same(s.parserLookUp, old(s.parserLookUp)) && same(s.lenCheck, old(s.lenCheck)) && same(s.resultHandler, old(s.resultHandler)) && s.token == old(s.token) && same(s.interpreter, old(s.interpreter))
+//@   assert_at entry [sep] cap(s.nodes) == 0 || s.result == nil || !typeis[ast.NodeList](s.result) || array(s.result.(ast.NodeList)) != array(s.nodes)
 //@   ensures  [pc1;C04] s.result != nil || s.err != nil || parsley.GhostCurtailed
+//@   ensures  [nodes-arr;C07] (array(s.nodes) == old(array(s.nodes)) && cap(s.nodes) == old(cap(s.nodes))) || fresh(s.nodes)
+//@   ensures  [result-arr;C07] s.result == nil || parsley.ListArr(s.result) == 0 || freshid(parsley.ListArr(s.result)) || (old(s.result) != nil && parsley.ListArr(s.result) == old(parsley.ListArr(s.result)) && parsley.NAlts(s.result) >= old(parsley.NAlts(s.result)) && parsley.NAlts(s.result) + parsley.ListSpare(s.result) == old(parsley.NAlts(s.result) + parsley.ListSpare(s.result)))
+//@   ensures  [alt-frame;C07] seqFrame(s)
 //@   assigns  s.curtailingParsers, s.result, s.err, s.nodes, cells(s.nodes)
+//@   assigns  ite(s.result != nil && typeis[ast.NodeList](s.result), cells(s.result.(ast.NodeList), len(s.result.(ast.NodeList)), cap(s.result.(ast.NodeList))), nothing())
 //@   assigns  like parsley.Parser.Parse(nil, ctx, lrc, pos)
 //@ loop 1 (k rangeindex, rest ast.NodeList)
 //@   invariant 0 <= k && k <= len(rest)
 //@   invariant seqOK(s, ctx) && len(s.nodes) >= old(len(s.nodes)) && depth <= len(s.nodes) && parsley.WfCtx(ctx) && parsley.WfCache(ctx) && seqGhost(ctx)
 //@   invariant same(s.parserLookUp, old(s.parserLookUp)) && same(s.lenCheck, old(s.lenCheck)) && same(s.resultHandler, old(s.resultHandler)) && s.token == old(s.token) && same(s.interpreter, old(s.interpreter))
 //@   invariant [rest] forall j int :: k <= j && j < len(rest) ==> validSeqNode(rest[j]) && pos <= rest[j].ReaderPos()
+//@   invariant [alt-frame] seqFrame(s)
+//@   invariant [nodes-arr] (array(s.nodes) == old(array(s.nodes)) && cap(s.nodes) == old(cap(s.nodes))) || fresh(s.nodes)
+//@   invariant [result-arr] s.result == nil || parsley.ListArr(s.result) == 0 || freshid(parsley.ListArr(s.result)) || (old(s.result) != nil && parsley.ListArr(s.result) == old(parsley.ListArr(s.result)) && parsley.NAlts(s.result) >= old(parsley.NAlts(s.result)) && parsley.NAlts(s.result) + parsley.ListSpare(s.result) == old(parsley.NAlts(s.result) + parsley.ListSpare(s.result)))
+//@   invariant [rest-sep] allocatedid(array(rest)) && (cap(s.nodes) == 0 || array(rest) != array(s.nodes)) && (s.result == nil || array(rest) != parsley.ListArr(s.result))
 //@   invariant [pc1] k >= 1 ==> s.result != nil || s.err != nil || parsley.GhostCurtailed
 
 //@ func (s *sequence) parseNext(i int, node parsley.Node, depth int, ctx *parsley.Context, lrc data.IntMap, pos parsley.Pos, merge bool) (done bool)
+//@   ghost_at store#2 when fresh(s.nodes) :: parsley.GhostSpare(array(s.nodes)) = true
 //@   requires seqOK(s, ctx) && seqShape(s) && 0 <= depth && depth <= len(s.nodes) && lookupOf(s.parserLookUp, depth) != nil && i >= 0
 //@   requires validSeqNode(node) && pos <= node.ReaderPos()
 //@   requires parsley.WfCtx(ctx) && parsley.WfCache(ctx) && parsley.InInput(ctx.Reader(), pos) && parsley.GhostLo <= pos && parsley.GhostHi == eof(ctx, pos) && parsley.GhostSeqMark <= allocmark()
 //@   requires [floor;C02] pos > parsley.GhostFloorPos || (pos == parsley.GhostFloorPos && forall k int :: data.MapOf(lrc)[k] >= data.MapOf(parsley.GhostFloorLrc)[k])
 //@   ensures  seqOK(s, ctx) && len(s.nodes) >= old(len(s.nodes)) && parsley.WfCtx(ctx) && parsley.WfCache(ctx) && seqGhost(ctx)
 //@   ensures  [fixed] same(s.parserLookUp, old(s.parserLookUp)) && same(s.lenCheck, old(s.lenCheck)) && same(s.resultHandler, old(s.resultHandler)) && s.token == old(s.token) && same(s.interpreter, old(s.interpreter))
+//@   assert_at entry [sep] cap(s.nodes) == 0 || s.result == nil || !typeis[ast.NodeList](s.result) || array(s.result.(ast.NodeList)) != array(s.nodes)
 //@   ensures  [pc1;C04] s.result != nil || s.err != nil || parsley.GhostCurtailed
+//@   ensures  [nodes-arr;C07] (array(s.nodes) == old(array(s.nodes)) && cap(s.nodes) == old(cap(s.nodes))) || fresh(s.nodes)
+//@   ensures  [result-arr;C07] s.result == nil || parsley.ListArr(s.result) == 0 || freshid(parsley.ListArr(s.result)) || (old(s.result) != nil && parsley.ListArr(s.result) == old(parsley.ListArr(s.result)) && parsley.NAlts(s.result) >= old(parsley.NAlts(s.result)) && parsley.NAlts(s.result) + parsley.ListSpare(s.result) == old(parsley.NAlts(s.result) + parsley.ListSpare(s.result)))
+//@   ensures  [alt-frame;C07] seqFrame(s)
 //@   assigns  s.curtailingParsers, s.result, s.err, s.nodes, cells(s.nodes)
+//@   assigns  ite(s.result != nil && typeis[ast.NodeList](s.result), cells(s.result.(ast.NodeList), len(s.result.(ast.NodeList)), cap(s.result.(ast.NodeList))), nothing())
 //@   assigns  like parsley.Parser.Parse(nil, ctx, lrc, pos)
